@@ -22,7 +22,7 @@ ASSUMPTIONS = [
     'effect categories are the six documented ones (passive, active, target, online, overload, system); area/dungeon/None raise KeyError at load (D14, outside the quantifier) and are kept out of generated universes',
     'item states and states passed to setters are State members; run modes may be any int (non-members never run)',
     'side-effect chances are unmodified attribute values (generated effects carry no modifiers); random() is replaced by a supplied draw sequence on both sides',
-    'autocharges (effect-defined charges) are not generated',
+    'autocharges (effect-defined charges) are generated but not modelled: the impl-level oracle checks them like charges',
 ]
 CLAUSES = {
     'running set = function of state, run mode, category, default, online, chance (four documented run modes)':
@@ -34,7 +34,7 @@ CLAUSES = {
     'booster side effects report and produce the status set, randomisation': 'proved: side_effect_roundtrip, randomize_spec (any draw sequence)',
     'fighter abilities report and produce the status set': 'proved: ability_roundtrip',
     'model = code': 'regenerated table/constants (decide +kernel) + differential correspondence on histories',
-    'autocharges': 'explored on impl only (not generated, not modelled)',
+    'autocharges follow their container': 'explored on impl only (oracle), not modelled',
 }
 LEVEL_TEXT = ('Lean theorems: the complete 19600-row decision table extracted by running EffectStatusResolver equals the '
               'hand-written reading of the EffectMode documentation (kernel evaluation), and for ALL histories of a '
@@ -52,6 +52,8 @@ HOLDS_CHARGE = {0, 1, 2}
 SINGLE = {8: 'ship', 11: 'character', 12: 'stance', 13: 'effect_beacon'}
 DOC_STATE = {0: 1, 1: 3, 2: 3, 4: 2, 5: 4, 7: 1}       # documented effect category -> state
 ONLINE = 16
+TARGET_ATTACK, AMMO_LOADED = 10, 127                    # effect / attribute that define an autocharge on modules
+LAUNCH_BOMB, BOMB_TYPE = 6485, 2324                     # ... and on fighter squads
 CHANCE_ATTRS = (5001, 5002, 5003)                       # 5003 has no metadata in any source
 CHANCES = [0.0, 0.25, 0.35, 0.5, 1.0]
 DRAWS = [0.0, 0.2, 0.25, 0.3499999, 0.35, 0.4, 0.5, 0.75, 0.9999999]
@@ -83,6 +85,7 @@ def make_universe(rnd):
             pool[eid] = (cat, ch)
         for eid in sorted(set(amap.values())):
             pool[eid] = (rnd.choice([1, 1, 2, 2, 0, 5]), None)
+        pool[TARGET_ATTACK] = (2, None)
         types = {}
         for k, tids in list(kinds.items()) + [(-1, charges)]:
             for t in tids:
@@ -103,6 +106,11 @@ def make_universe(rnd):
                 rnd.shuffle(effs)
                 default = rnd.choice(effs) if effs and rnd.random() < 0.7 else None
                 tattrs = {a: rnd.choice(CHANCES) for a in CHANCE_ATTRS[:2] if rnd.random() < 0.6}
+                if k in HOLDS_CHARGE and rnd.random() < 0.3:      # autocharge (impl-level exploration only)
+                    effs.append(TARGET_ATTACK)
+                    tattrs[AMMO_LOADED] = rnd.choice(charges)
+                if k == 4 and LAUNCH_BOMB in effs and rnd.random() < 0.7:
+                    tattrs[BOMB_TYPE] = rnd.choice(charges)
                 types[t] = {'effects': effs, 'default': default, 'abilities': abilities, 'attrs': tattrs}
         desc['sources'].append({'attrs': attrs, 'pool': {str(e): list(v) for e, v in pool.items()},
                                 'types': {str(t): v for t, v in types.items()}})
@@ -347,7 +355,7 @@ class ImplWorld:
         self.attached, self.source = True, None
         self.live = {}        # id(obj) -> set of ids the notifications say are running
         self.keep = []        # objects seen in notifications (kept so ids are not reused)
-        self.gone = []        # charges that were taken out of their module
+        self.gone = []        # charges that were taken out of their module, autocharges seen so far
         self.draws_used = 0
 
     # -- executing ops
@@ -496,14 +504,14 @@ class ImplWorld:
         return out
 
     # -- the property, checked directly on eos
-    def expected(self, sh, charge):
+    def expected(self, sh, charge, autocharge_type=None):
         """(loaded?, {effect id: should run}) recomputed from the shadow and the universe description."""
-        tid = sh['ctype'] if charge else sh['type']
+        tid = autocharge_type if autocharge_type is not None else sh['ctype'] if charge else sh['type']
         view = self.view(tid) if sh['onfit'] else None
         if view is None:
             return False, {}
         dflt, _, effs = view
-        modes = sh['cmodes'] if charge else sh['modes']
+        modes = {} if autocharge_type is not None else sh['cmodes'] if charge else sh['modes']
         st = sh['state']
         onl = [x for x in effs if x[0] == ONLINE]
         online_runs = bool(onl) and spec_decide(st, modes.get(ONLINE, 1), DOC_STATE[onl[0][1]], dflt == ONLINE,
@@ -527,12 +535,15 @@ class ImplWorld:
                 live -= set(ids)
         for i, it in self.items.items():
             sh = self.sh[i]
-            for charge in (False, True):
-                obj = getattr(it, 'charge', None) if charge else it
+            cores = [(it, False, None), (getattr(it, 'charge', None), True, None)]
+            cores += [(ac, True, ac._type_id) for ac in it.autocharges.values()]
+            for obj, charge, actype in cores:
                 if obj is None:
                     continue
-                who = 'item %d%s' % (i, ' charge' if charge else '')
-                loaded, exp = self.expected(sh, charge)
+                if actype is not None and not any(obj is g for g in self.gone):
+                    self.gone.append(obj)
+                who = 'item %d%s' % (i, (' autocharge' if actype is not None else ' charge') if charge else '')
+                loaded, exp = self.expected(sh, charge, actype)
                 if obj._is_loaded != loaded:
                     violate('%s loaded=%s, reachable type=%s' % (who, obj._is_loaded, loaded))
                     continue
@@ -548,13 +559,14 @@ class ImplWorld:
                 if self.live.get(id(obj), set()) != set(obj._running_effect_ids):
                     violate('%s: start/stop notifications add up to %s, running %s' % (
                         who, sorted(self.live.get(id(obj), set())), sorted(obj._running_effect_ids)))
-                modes = sh['cmodes'] if charge else sh['modes']
+                modes = {} if actype is not None else sh['cmodes'] if charge else sh['modes']
                 for e, d in obj.effects.items():
                     if int(d.mode) != modes.get(e, 1):
                         violate('%s effect %d reports mode %s, was set to %s' % (who, e, int(d.mode), modes.get(e, 1)))
+        current = [ac for it in self.items.values() for ac in it.autocharges.values()]
         for obj in self.gone:
-            if obj._is_loaded or obj._running_effect_ids:
-                violate('a charge taken out of its module is still loaded / runs %s' % sorted(obj._running_effect_ids))
+            if not any(obj is c for c in current) and (obj._is_loaded or obj._running_effect_ids):
+                violate('a charge taken out of its item is still loaded / runs %s' % sorted(obj._running_effect_ids))
         if status != 'ok':
             return
         o = op['op']
@@ -615,6 +627,10 @@ def run_history(desc, ops, rep=None, compare=True, oracle=True, tag=''):
         if rep is not None:
             rep.dist['op-' + op['op']] += 1
             rep.dist['status-' + status] += 1
+            rep.dist['autocharges-present'] += sum(len(it.autocharges) for it in w.items.values())
+            rep.dist['charges-present'] += sum(1 for it in w.items.values() if getattr(it, 'charge', None) is not None)
+            rep.dist['side-effects-enabled'] += sum(
+                1 for i, it in w.items.items() if w.sh[i]['kind'] == 5 for d in it.side_effects.values() if d.status)
             sig = None
             nontrivial = [(i, it) for i, it in w.items.items() if it._is_loaded and it._type_effects]
             if nontrivial:
@@ -652,10 +668,13 @@ def shrink(desc, ops, kind):
     changed = True
     while changed and len(ops) > 1:
         changed = False
-        for i in range(len(ops) - 1, -1, -1):
-            f = bad(ops[:i] + ops[i + 1:])
-            if f:
-                best, ops, changed = f, f[2]['ops'], True
+        for width in (1, 2):
+            for i in range(len(ops) - width, -1, -1):
+                f = bad(ops[:i] + ops[i + width:])
+                if f:
+                    best, ops, changed = f, f[2]['ops'], True
+                    break
+            if changed:
                 break
     return best
 
@@ -716,14 +735,14 @@ def correspondence(ctx):
     rep.exhaustive = {'decision_table_rows': n, 'complete': True}
     rep.notes.append('D14 (observation, outside the property): %d table rows of categories without a state raise '
                      'KeyError' % rep.dist['table-raises'])
-    histories(ctx, rep, ctx.n(60, 900), ctx.n(70, 90), 'corr', compare=True, oracle=False)
+    histories(ctx, rep, ctx.n(60, 2500), ctx.n(70, 100), 'corr', compare=True, oracle=False)
 
 
 def oracle(ctx):
     """The property checked directly on eos: running sets recomputed from the documented rules."""
     rep = ctx.report
     table_rows(Quiet(rep), rep.violate)
-    histories(ctx, rep, ctx.n(60, 900), ctx.n(70, 90), 'oracle', compare=False, oracle=True)
+    histories(ctx, rep, ctx.n(60, 2500), ctx.n(70, 100), 'oracle', compare=False, oracle=True)
 
 
 class Quiet:
